@@ -42,6 +42,7 @@ type c13Case struct {
 var c13P2 = []scen.P2Config{
 	{Sizes: []int{11, 6}, Slice: 4, Blocks: 3, Class: "uniq"},
 	{Sizes: []int{16500, 4000}, Slice: 64, Blocks: 5, Class: "uniq", G: 2},
+	{Sizes: []int{11, 6}, Slice: 4, Blocks: 3, Class: "trailzero"}, // data files ending in zero bytes: truncation inside the zero padding of the last slice
 }
 var c13P1 = []scen.P1Config{
 	{Sizes: []int{7, 5}, Volumes: 2},
@@ -69,6 +70,10 @@ func applyFileOp(fs *envfs.FS, seed int64, op fileOp) {
 		}
 	case "garbage":
 		fs.Put(op.Path, scen.Garbage(seed, 77+op.N, op.N))
+	case "appz":
+		if ok {
+			fs.Put(op.Path, append(append([]byte{}, b...), make([]byte, op.N)...))
+		}
 	default:
 		panic("bad file op " + op.Op)
 	}
@@ -172,7 +177,18 @@ func c13Gen(g *core.Gen) {
 		}
 		files := append([]string{s.Index}, s.RecFiles...)
 		files = append(files, s.Paths...)
-		c13GenFormat(g, "p2", si, files, s.FS0.Files, s.Paths, si == 0, rpar2.PacketBoundaries)
+		if si == 2 {
+			files = s.Paths // the index / recovery files of this shape are covered by set 0
+			for _, f := range files {
+				for n := 1; n <= 2*cfg.Slice+1; n++ {
+					g.Emit(&c13Case{Fmt: "p2", Set: si, Ops: []fileOp{{Path: f, Op: "appz", N: n}}})
+				}
+			}
+		}
+		c13GenFormat(g, "p2", si, files, s.FS0.Files, s.Paths, si != 1, rpar2.PacketBoundaries)
+		if si == 2 {
+			continue
+		}
 		// crash prefixes of Create
 		ws := c13CreateWrites2(cfg, g.Seed)
 		for k := 0; k <= len(ws); k++ {
@@ -366,6 +382,18 @@ func c13RunP2(c *c13Case, r *core.Rec) {
 			}
 			if o.Counts.UsableParityShardCount > len(loose) {
 				r.Violatef("verify-parity-unsound", "usable recovery blocks %d, but only %d distinct intact recovery packets exist beside the index", o.Counts.UsableParityShardCount, len(loose))
+			}
+			// a clean verdict is a statement that every protected file is usable as it is
+			if !o.Counts.RepairNeeded() {
+				intact := true
+				for i, p := range s.Paths {
+					if b, ok := fs.Get(p); !ok || !bytes.Equal(b, s.Data[i]) {
+						intact = false
+					}
+				}
+				if !intact {
+					r.Violatef("verify-clean-but-files-differ", "Verify returned a result saying no repair is needed (%+v) although a protected file is damaged", o.Counts)
+				}
 			}
 			r.Count("verify_results", 1)
 		} else {
